@@ -13,7 +13,7 @@ cmd="${1:-}"; shift || true
 sync_verif() {
   mkdir -p "$LAB/verif"
   rsync -a --delete --exclude target --exclude replays-out --exclude .git --exclude evidence --exclude seeded /verif/ "$LAB/verif/"
-  mkdir -p "$LAB/verif/evidence"
+  mkdir -p "$LAB/verif/evidence" "$LAB/target"; [ -e "$LAB/verif/target" ] || ln -sfn "$LAB/target" "$LAB/verif/target"
   sed -i "s#/repo/crates#$LAB/repo/crates#g" "$LAB"/verif/sim/*/Cargo.toml
   sed -i "s#/verif/target#$LAB/target#" "$LAB/verif/sim/.cargo/config.toml"
   # the check script takes its root from its own location; the build script reads VERIF_REPO
@@ -30,6 +30,7 @@ case "$cmd" in
     P="$(readlink -f "$1")"; shift
     sync_verif
     git -C "$LAB/repo" checkout -q -- . ; git -C "$LAB/repo" clean -fdq -- crates
+    git -C "$LAB/repo" checkout -q --detach "$(git -C /repo rev-parse HEAD)"
     if ! git -C "$LAB/repo" apply --check "$P" 2>/dev/null; then echo "patch does not apply: $P" >&2; exit 2; fi
     git -C "$LAB/repo" apply "$P"
     for ID in "$@"; do
@@ -42,6 +43,7 @@ case "$cmd" in
   clean)
     sync_verif
     git -C "$LAB/repo" checkout -q -- . ; git -C "$LAB/repo" clean -fdq -- crates
+    git -C "$LAB/repo" checkout -q --detach "$(git -C /repo rev-parse HEAD)"
     for ID in "$@"; do
       OUT=$("$LAB/verif/check" "$ID" --tier "${TIER:-quick}" --scale "${SCALE:-1}" 2>&1); RC=$?
       echo "clean $ID exit=$RC"; echo "$OUT" | grep -E "^(VIOLATION|HARNESS-ERROR)" | cut -c1-300 | head -6
